@@ -8,7 +8,7 @@ MISMATCHES = "mismatches_C15"
 VIOLATIONS = "violations_C15"
 KNOWN = None
 SHARD = 40
-RULE = ("top-level user files whose names are proper substrings of the job's own file names (state, json, signac, point.json, document ...) x document strategy incl. DocSync.COPY; permission bits other than the umask default on counterpart / one-sided / nested files and in cloned jobs x preserve_permissions / preserve_times x collect_stats (bits observed before and after, next to the trees); names of filecmp.DEFAULT_IGNORES on both sides with equal size and mtime but different content, pools of 2 / 3 / cpu_count workers against 1-7 jobs; file / directory clashes at the top level and nested, user files named like the state point / document in sub-directories, a caller-owned exclude list reused across two calls, deep syncs after an earlier deep comparison of the same paths followed by a same-size same-mtime change (filecmp cache not cleared by the harness); selection also as one-shot iterables; raising key strategy callbacks; dry runs over trees with symbolic links (file links, links out of the job, dangling; follow_symlinks True / False; outside the model, dry-run oracle only); option-oriented seeded random pairs of the C13 universe with dry_run (40%), deep (40%), exclude patterns (45%), "
+RULE = ("Job.sync / sync_jobs between jobs whose state points differ x document strategy (all DocSync.COPY combinations in quick) x file strategy incl. custom strategies that accept the state point file and update with a newer source state point x destination initialised or not; top-level user files whose names are proper substrings of the job's own file names (state, json, signac, point.json, document ...) x document strategy incl. DocSync.COPY; permission bits other than the umask default on counterpart / one-sided / nested files and in cloned jobs x preserve_permissions / preserve_times x collect_stats (bits observed before and after, next to the trees); names of filecmp.DEFAULT_IGNORES on both sides with equal size and mtime but different content, pools of 2 / 3 / cpu_count workers against 1-7 jobs; file / directory clashes at the top level and nested, user files named like the state point / document in sub-directories, a caller-owned exclude list reused across two calls, deep syncs after an earlier deep comparison of the same paths followed by a same-size same-mtime change (filecmp cache not cleared by the harness); selection also as one-shot iterables; raising key strategy callbacks; dry runs over trees with symbolic links (file links, links out of the job, dangling; follow_symlinks True / False; outside the model, dry-run oracle only); option-oriented seeded random pairs of the C13 universe with dry_run (40%), deep (40%), exclude patterns (45%), "
         "selection by job / id (45%), parallel in {False, 2, True} (30%) x entry point (Project.sync, sync_projects, Job.sync, "
         "sync_jobs); every dry run is accompanied by the same call with dry_run=False on a fresh copy of the pair, every "
         "parallel run by the sequential one; plus the one-file core x deep x dry_run and the one-key document core under "
@@ -37,7 +37,7 @@ def gen_inputs(tier, rng):
     if tier == "quick":
         files, docs = rng.sample(files, 120), rng.sample(docs, 80)
         nested, backup = rng.sample(nested, 50), rng.sample(backup, 40)
-    return descs + files + docs + nested + backup + _excl(tier, rng) + _round3(tier, rng) + _round4(tier, rng) + _round6(tier, rng) + _round7(tier, rng) + sync_gen.core_reuse_cases((False, True))
+    return descs + files + docs + nested + backup + _excl(tier, rng) + _round3(tier, rng) + _round4(tier, rng) + _round6(tier, rng) + _round7(tier, rng) + _round8(tier, rng) + sync_gen.core_reuse_cases((False, True))
 
 def _round3(tier, rng):
     cases = sync_gen.core_selection_cases() + sync_gen.core_fault_cases()
@@ -50,6 +50,15 @@ def _round3(tier, rng):
 def _round4(tier, rng):
     cases = sync_gen.core_deep_history_cases() + sync_gen.core_reuse_exclude_cases() + sync_gen.core_clash_cases()
     return cases if tier != "quick" else rng.sample(cases, 150)
+
+
+def _round8(tier, rng):
+    cross = sync_gen.core_cross_cases((False, True))
+    if tier == "quick":
+        copy = [c for c in cross if c["opts"]["doc_sync"] == "copy"]
+        other = [c for c in cross if c["opts"]["doc_sync"] != "copy"]
+        cross = rng.sample(copy, 24) + rng.sample(other, 24)
+    return cross
 
 
 def _round7(tier, rng):
